@@ -236,6 +236,49 @@ theorem C07_session_untouched_voice_partial (fuel : Nat) (sr : UInt64) (Pold Pne
     refine C06_agreeing_machines_same_future fuel Pnew sr inputs ln hln hself.symm hcov (k + 1) _ _ ⟨rfl, rfl, ?_⟩
     exact agree_transplant ln hln preN postN sj self cells hcn st' _ (canon_conformsS ln st' hln hcanon) hvoice hw
 
+/-- **a session with an edit: a new voice starts from zero.**  If no patch of the plan touches the word range of the child
+cell `sj` of the new layout (the executable test `childReceives` of the judge is false), the session continues, for every
+number of further samples, exactly like the new program started on the machine in which that call site has NEVER been
+evaluated (`SNode.empty`: `self`, `mem`, `delay` contents zero), everything else as migrated -/
+theorem C07_session_fresh_voice (fuel : Nat) (sr : UInt64) (Pold Pnew : Prog) (lo ln : LNode)
+    (preN postN : List LCell) (sj : Nat) (self : Option Shape) (cells : List LCell)
+    (inputs : Nat → List UInt64) (n : Nat) (m0 mn m : Machine) (o1 : List (List UInt64))
+    (hpo : publishFn Pold Pold.dsp = some lo) (hpn : publishFn Pnew Pnew.dsp = some ln)
+    (harms : noStateInArms Pnew Pnew.dsp.body = true) (hs : SitesUnique Pnew) (hd : SitesOk Pnew.dsp.body)
+    (hcn : ln.cells = preN ++ .child sj self cells :: postN)
+    (hnone : ∀ p ∈ planPatches (publishedSk lo) (publishedSk ln), ∀ k, k < LNode.size ⟨self, cells⟩ →
+      ¬ p.covers (selfSize ln.self + sizeCells preN + k))
+    (hinit : Machine.init fuel Pold sr = .ok m0) (hinitn : Machine.init fuel Pnew sr = .ok mn)
+    (hpre : prefixRun fuel Pold sr inputs n m0 = some (o1, m))
+    (hconf : Conforms lo m.root) :
+    ∃ st', swapState Pold Pnew m.root = some st' ∧
+      serialize ⟨self, cells⟩ (st'.childAt sj) = List.replicate (LNode.size ⟨self, cells⟩) 0 ∧
+      ∀ k, session fuel sr Pold [(n, Pnew)] inputs (n + k) =
+        (runFrom fuel Pnew sr inputs k ⟨mn.store, st'.setCell sj (.child SNode.empty), n⟩).map (o1 ++ ·) := by
+  have hln := C05_publish_ok Pnew.fns.length Pnew Pnew.dsp ln hs hd hpn
+  obtain ⟨ws, h1, _, hcanon, hw⟩ := swapWords_fresh_child lo ln hln preN postN sj self cells hcn m.root hconf hnone
+  have hsw : swapState Pold Pnew m.root = some (deserialize ln ws) := by simp [swapState, hpo, hpn, h1]
+  refine ⟨deserialize ln ws, hsw, by rw [hw, serialize_empty], fun k => ?_⟩
+  obtain ⟨hself, _, hcov⟩ := C05_publishFn_visits Pnew.fns.length Pnew Pnew.dsp ln harms hpn
+  have htm : m.t = n := by
+    rw [prefixRun_t fuel Pold sr inputs n m0 o1 m hpre, (init_t fuel Pold sr m0 hinit).1]; omega
+  have hlc : LayOk (.child sj self cells) := layOk_of_mem ln.cells _ hln (by rw [hcn]; simp)
+  have hempty : ConformsS ⟨self, cells⟩ SNode.empty := by
+    have := confS_empty _ hlc
+    simpa [ConfS, childAt_empty', ConformsS] using this
+  cases k with
+  | zero =>
+    have := sessionFrom_prefix fuel sr [(n, Pnew)] inputs Pold 0 n m0 (by simp [(init_t fuel Pold sr m0 hinit).1])
+    simp only [session, hinit, this, hpre, sessionFrom, runFrom, Option.map_some, List.append_nil]
+  | succ k =>
+    rw [session_one_swap fuel sr Pold Pnew inputs n k m0 hinit o1 m hpre]
+    have hso : swapOne fuel sr Pold m Pnew = some (Pnew, ⟨mn.store, deserialize ln ws, m.t⟩) := by
+      simp [swapOne, hpn, hsw, hinitn]
+    simp only [hso, sessionFrom_nil, htm]
+    congr 1
+    refine C06_agreeing_machines_same_future fuel Pnew sr inputs ln hln hself.symm hcov (k + 1) _ _ ⟨rfl, rfl, ?_⟩
+    exact agree_transplant ln hln preN postN sj self cells hcn _ _ (canon_conformsS ln _ hln hcanon) hempty hw
+
 /-- the judge's test `carriesChild` (child INDICES of the published skeletons) gives the hypothesis `carriesRange` (word
 OFFSETS of the labelled layouts) of the two theorems above, when no child of `dsp` is pruned from the skeletons (every call
 site of `dsp` is a function with state, as the voices are): the voice is child `|feed| + |cells before it|` and its offset
@@ -273,9 +316,14 @@ example (fuel : Nat) (sr : UInt64) (inputs : Nat → List UInt64) :
     prefixRun fuel Pold sr inputs 0 m0 = some ([], m0) ∧
     Conforms lo m0.root ∧ ConformsS ⟨some .num, []⟩ (m0.root.childAt 1) ∧
     publishedSk lo = lo.sk ∧ publishedSk ln = ln.sk ∧
-    carriesChild (publishedSk lo) (publishedSk ln) ((feedOf lo.self).length + 0) ((feedOf ln.self).length + 1) = true := by
+    carriesChild (publishedSk lo) (publishedSk ln) ((feedOf lo.self).length + 0) ((feedOf ln.self).length + 1) = true ∧
+    -- `C07_session_fresh_voice`: the inserted voice `lag` (child 2, offset 0, one word) receives nothing
+    ln.cells = [] ++ .child 2 none [.mem 1] :: [.child 1 (some .num) []] ∧
+    (∀ p ∈ planPatches (publishedSk lo) (publishedSk ln), ∀ k, k < LNode.size ⟨none, [.mem 1]⟩ →
+      ¬ p.covers (selfSize ln.self + sizeCells [] + k)) := by
   intro cntF lagF Pold Pnew lo ln m0
-  refine ⟨rfl, rfl, rfl, ?_, ?_, rfl, rfl, by decide +kernel, rfl, rfl, rfl, ?_, ?_, rfl, rfl, by decide +kernel⟩
+  refine ⟨rfl, rfl, rfl, ?_, ?_, rfl, rfl, by decide +kernel, rfl, rfl, rfl, ?_, ?_, rfl, rfl, by decide +kernel, rfl,
+    by decide +kernel⟩
   · intro d hd
     simp only [Pnew, List.mem_cons, List.not_mem_nil, or_false] at hd
     rcases hd with rfl | rfl <;> simp [SitesOk, siteLens, cntF, lagF]
